@@ -272,6 +272,19 @@ def spec_walk(t, rt, off, nulls, addr, ids=(), key=()):
                 out += spec_walk(p['sub'], rt, off, nulls, sa, ids + (i,), ckey)
     return out
 
+def off_toggle_addrs(tables, off):
+    """the runtime state as the model of port_is_enabled sees it: the absolute
+    address (relative to the root "/") of every toggle that answers false - under
+    EVERY address its table's object is reached at"""
+    out = []
+    for a, tb, k in tables:
+        for w in "TU":
+            if (k, w) in off:
+                for p in tb:
+                    if p['kind'] == w:
+                        out.append(a + p['name'].split(b":")[0])
+    return sorted(set(out))
+
 def bump(dist, k, n=1):
     dist[k] = dist.get(k, 0) + n
 
@@ -334,10 +347,11 @@ def gen(rng, tier, dist):
                             dis += [a + x for x in pc.expand(p['segs'])]
                         elif p['kind'] == 'S':
                             selfoff.append(a)
+            tgoff = off_toggle_addrs(tables, off)
             buf = rng.choice([b"", b"", b"/", b"/pre/", b"/p0/q/"])
             j = lambda l: ";".join(hx(x) for x in l) if l else "-"
             offs = ";".join("%s:%d" % (hx(tab_of_key[k][0]), 0 if w == 'T' else 1) for k, w in sorted(off)) or "-"
-            out.append("walk %s %s %s %d %s %s %s %s nok=%d" % (et, ek, hx(buf), rt, j(sorted(set(nulladdrs))), j(dis), j(selfoff), offs, nok))
+            out.append("walk %s %s %s %d %s %s %s %s nok=%d tg=%s" % (et, ek, hx(buf), rt, j(sorted(set(nulladdrs))), j(dis), j(selfoff), offs, nok, j(tgoff)))
             bump(dist, "runtime" if rt else "static")
             bump(dist, "pruned-subtrees", len(dis) + len(nulls))
     return out
@@ -399,12 +413,16 @@ def spec_check(case, impl):
     # keeps the old behaviour)
     if tree_ok(t) or nok:
         d = m["d"].split(";") if m["d"] != "-" else []
+        if len(d) != len(got):
+            return "dispatch: %d pairs were reported, %d dispatch results came back" % (len(got), len(d))
         for (i, a), r in zip(got, d):
             if canon_ids(t, r) != i:
                 return "dispatch: %r was reported for port %s, sent as a message it reached %s" % (a, i, r)
         # with a location buffer: the same single port, it sees the full address in d.loc,
         # matches = 1, loc back to "/" afterwards
         dl = m["dl"].split(";") if m["dl"] != "-" else []
+        if len(dl) != len(got):
+            return "dispatch-loc: %d pairs were reported, %d dispatch results (with a location buffer) came back" % (len(got), len(dl))
         for (i, a), r in zip(got, dl):
             rel = b"/" + a[len(pre):]
             want_dl = "%s@%s#1#%s" % (i, hx(rel), hx(b"/"))
@@ -472,9 +490,15 @@ TECHNIQUE = ("Coq proofs (structural induction over the port tree and the segmen
              "walk_ports over macro-generated callbacks, with the real dispatch of every reported address")
 LEVEL_TEXT = ("For every well-formed tree ('#N' at any level, leaf names with several '#') the reported (port, address) list is exactly "
               "the Spec's enumeration (C09_enumerates); the buffer is restored for every tree, oracle and initial content "
-              "(C09_buffer_restored); pruning by NULL object / 'enabled by' per expansion (C09_pruning, C09_pruning_enumerated, "
-              "C09_self_disabled); every reported address is dispatched to the reported port, with and without a location buffer, "
+              "(C09_buffer_restored) and the erase loop's length test never fires (C09_erase_check_dead); with a runtime object, "
+              "for every oracle, the reported list is the enumeration with the pruned sub-trees left out and the walk does not "
+              "fail (C09_enumerates_rt, C09_walk_total_rt; oracle-relative, like C09_pruning, C09_pruning_enumerated, "
+              "C09_self_disabled); the oracle is what port_is_enabled returns: metadata lookup, sub-port test, operator[], "
+              "location string + collapsePath, the toggle's answer (coq/Ports/EnabledModel.v; C09_oracle_disabled, "
+              "C09_oracle_selfoff, C09_pruned_reports_asked_port) - the tie's model computes the pruning from the runtime state "
+              "(tg= field) through that model; every reported address is dispatched to the reported port, with and without a location buffer, "
               "for names of the macro shape - sub-tree names of one or more components - and pairwise non-overlapping siblings "
               "(C09_dispatchable = C09_enumerates + C05 + C04).")
 LEVEL_NOTE = ("Trusted: Coq kernel, extraction, OCaml driver, harness, generator. The C++ code is modelled by hand "
-              "(coq/Ports/WalkModel.v) and related to the model only by the correspondence run.")
+              "(coq/Ports/WalkModel.v, coq/Ports/EnabledModel.v) and related to the model only by the correspondence run. The "
+              "runtime enters the model as the toggles' answers (per table address and toggle name) and the NULL child pointers.")
